@@ -11,13 +11,15 @@ import (
 	"strings"
 	"testing"
 
+	"honnef.co/go/tools/lintcmd"
 	"pgregory.net/rapid"
 	"verif/harness/internal/ev"
+	"verif/harness/internal/rn"
 )
 
 func TestMain(m *testing.M) { ev.Main(m) }
 
-const rule = "crafted case = 1-5 runs in the gob format of `staticcheck -f binary` (mirror types), over <=4 file names; each run has a build name, a checked-file set and a subset of a universe of <=7 problems (file, line, column, end, check, message; merge strategy a function of the check, ignore state and related information a function of the problem); whole runs are duplicated, runs report on files other runs did not check (and on files they did not check themselves), problems tie on position and message while differing in check or end; the stream goes to the real `staticcheck -merge` (-f text and -f json; stdin or file arguments) and is compared with an independent reference model (any: some run has it; all: every run that checked the file has it; build names = sorted set of the reporting runs' names); all orders of the runs (<=4 runs; 12 sampled orders for 5) and every single-run duplication must give byte-identical output. matrix case = generated module with _linux/_windows and foo/!foo files whose features have a known outcome per configuration; `staticcheck -matrix` with 2-3 configurations vs that outcome, vs the model applied to the decoded per-configuration `-matrix -f binary` runs, and vs `-merge` of those outputs in every order. non-trivial = >=2 runs with an 'all' problem missing from exactly one run that checked its file and an 'any' problem present in exactly one run (matrix: an 'all' problem vetoed by one configuration and an 'any' problem under a proper subset of the configurations); distinct by the hash of the sorted run set"
+const rule = "crafted case = 1-5 runs in the gob format of `staticcheck -f binary` (mirror types), over <=4 file names; each run has a build name, a checked-file set and a subset of a universe of <=7 problems (file, line, column, end, check, message; merge strategy a function of the check, ignore state and related information a function of the problem); whole runs are duplicated, runs report on files other runs did not check (and on files they did not check themselves), problems tie on position and message while differing in check or end; the stream goes to the real `staticcheck -merge` (-f text and -f json; stdin or file arguments) and is compared with an independent reference model (any: some run has it; all: every run that checked the file has it; build names = sorted set of the reporting runs' names); all orders of the runs (<=4 runs; 12 sampled orders for 5), every single-run duplication and the duplication of all runs must give byte-identical output and the same exit status (the reversed order through the binary, the others by executing the same lintcmd.Command in the test process, which is cross-checked against the binary on every case). matrix case = generated module with _linux/_windows and foo/!foo files whose features have a known outcome per configuration; `staticcheck -matrix` with 2-3 configurations vs that outcome, vs the model applied to the decoded per-configuration `-matrix -f binary` runs, and vs `-merge` of those outputs in every order. non-trivial = >=2 runs with an 'all' problem missing from exactly one run that checked its file and an 'any' problem present in exactly one run (matrix: an 'all' problem vetoed by one configuration and an 'any' problem under a proper subset of the configurations); distinct by the hash of the sorted run set"
 
 // sigTie is the signature of the known defect class: two different problems
 // at the same position with the same message (differing in check or end).
@@ -91,7 +93,8 @@ func genCase(t *rapid.T) *Case {
 			case 2:
 				p.EndLine, p.EndCol = p.Line+1, 1
 			}
-			if rapid.Bool().Draw(t, "all") {
+			// the first two fresh problems give the universe one check of each strategy
+			if len(c.Universe) == 0 || (len(c.Universe) != 1 && rapid.Bool().Draw(t, "all")) {
 				p.Cat = allCats[rapid.IntRange(0, len(allCats)-1).Draw(t, "cat")]
 				p.All = true
 			} else {
@@ -123,11 +126,13 @@ func genCase(t *rapid.T) *Case {
 	case 1:
 		pool = []string{"", "x", "y"}
 	}
-	nr := rapid.IntRange(1, 5).Draw(t, "nruns")
+	nr := []int{1, 2, 2, 3, 3, 3, 4, 4, 4, 5, 5}[rapid.IntRange(0, 10).Draw(t, "nruns")]
+	dupOf := make([]int, nr)
 	for i := 0; i < nr; i++ {
+		dupOf[i] = -1
 		if i > 0 && rapid.IntRange(0, 5).Draw(t, "duprun") == 0 {
-			src := c.Runs[rapid.IntRange(0, i-1).Draw(t, "dupof")]
-			c.Runs = append(c.Runs, Run{Build: src.Build, Checked: append([]string(nil), src.Checked...), Probs: append([]int(nil), src.Probs...), Twice: append([]int(nil), src.Twice...)})
+			dupOf[i] = rapid.IntRange(0, i-1).Draw(t, "dupof")
+			c.Runs = append(c.Runs, Run{})
 			continue
 		}
 		r := Run{Build: pool[rapid.IntRange(0, len(pool)-1).Draw(t, "build")], Checked: []string{}, Probs: []int{}}
@@ -149,6 +154,88 @@ func genCase(t *rapid.T) *Case {
 			}
 		}
 		c.Runs = append(c.Runs, r)
+	}
+	// the interesting shape, planted: an "all" problem that exactly one run which
+	// checked the file lacks, and an "any" problem only one run has
+	var allIdx, anyIdx []int
+	for j, p := range c.Universe {
+		if p.All {
+			allIdx = append(allIdx, j)
+		} else {
+			anyIdx = append(anyIdx, j)
+		}
+	}
+	var base []int
+	for i := range c.Runs {
+		if dupOf[i] < 0 {
+			base = append(base, i)
+		}
+	}
+	if len(base) >= 2 && rapid.IntRange(0, 4).Draw(t, "plant") != 0 {
+		has := func(xs []int, x int) bool {
+			for _, y := range xs {
+				if y == x {
+					return true
+				}
+			}
+			return false
+		}
+		drop := func(xs []int, x int) []int {
+			out := []int{}
+			for _, y := range xs {
+				if y != x {
+					out = append(out, y)
+				}
+			}
+			return out
+		}
+		if len(allIdx) > 0 {
+			a := allIdx[rapid.IntRange(0, len(allIdx)-1).Draw(t, "plantall")]
+			miss := base[rapid.IntRange(0, len(base)-1).Draw(t, "plantmiss")]
+			for _, i := range base {
+				r := &c.Runs[i]
+				checks := false
+				for _, f := range r.Checked {
+					checks = checks || f == c.Universe[a].File
+				}
+				if i == miss {
+					if !checks {
+						r.Checked = append(r.Checked, c.Universe[a].File)
+					}
+					r.Probs, r.Twice = drop(r.Probs, a), drop(r.Twice, a)
+				} else if checks && !has(r.Probs, a) {
+					r.Probs = append(r.Probs, a)
+				}
+			}
+			// somebody has to report it
+			other := base[0]
+			if other == miss {
+				other = base[1]
+			}
+			if !has(c.Runs[other].Probs, a) {
+				c.Runs[other].Probs = append(c.Runs[other].Probs, a)
+			}
+		}
+		if len(anyIdx) > 0 {
+			a := anyIdx[rapid.IntRange(0, len(anyIdx)-1).Draw(t, "plantany")]
+			only := base[rapid.IntRange(0, len(base)-1).Draw(t, "plantonly")]
+			for _, i := range base {
+				r := &c.Runs[i]
+				if i == only {
+					if !has(r.Probs, a) {
+						r.Probs = append(r.Probs, a)
+					}
+				} else {
+					r.Probs, r.Twice = drop(r.Probs, a), drop(r.Twice, a)
+				}
+			}
+		}
+	}
+	for i := range c.Runs {
+		if dupOf[i] >= 0 {
+			src := c.Runs[dupOf[i]]
+			c.Runs[i] = Run{Build: src.Build, Checked: append([]string(nil), src.Checked...), Probs: append([]int(nil), src.Probs...), Twice: append([]int(nil), src.Twice...)}
+		}
 	}
 	c.Input = []string{"stdin", "stdin", "onefile", "files", "split"}[rapid.IntRange(0, 4).Draw(t, "input")]
 	c.ShowIgnored = rapid.IntRange(0, 3).Draw(t, "showignored") == 0
@@ -455,6 +542,55 @@ func merge(dir string, segs [][]byte, order []int, format, input string, showIgn
 	return runTool(dir, []string{"STATICCHECK_CACHE=" + filepath.Join(dir, "cache")}, stdin, args...)
 }
 
+// registered is what cmd/staticcheck registers; it only influences severities
+// and the exit status.
+var registered = rn.Lint(false)
+
+// mergeInProcess runs the implementation of `staticcheck -merge` (the same
+// lintcmd.Command cmd/staticcheck builds) inside the test process on the
+// segment files seg<i>.bin, passed as file arguments in the given order. Used
+// for the many executions the algebraic laws need; the comparison with the
+// reference model always uses the real binary, and the two are cross-checked
+// on every case.
+func mergeInProcess(dir string, order []int, format string, showIgnored bool) (res result, err error) {
+	args := []string{"-merge", "-f", format}
+	if showIgnored {
+		args = append(args, "-show-ignored")
+	}
+	for _, i := range order {
+		args = append(args, filepath.Join(dir, fmt.Sprintf("seg%d.bin", i)))
+	}
+	outF, err := os.Create(filepath.Join(dir, "stdout.txt"))
+	if err != nil {
+		return res, err
+	}
+	errF, err := os.Create(filepath.Join(dir, "stderr.txt"))
+	if err != nil {
+		outF.Close()
+		return res, err
+	}
+	cmd := lintcmd.NewCommand("staticcheck")
+	cmd.AddAnalyzers(registered...)
+	cmd.ParseFlags(args)
+	oldOut, oldErr := os.Stdout, os.Stderr
+	func() {
+		defer func() {
+			os.Stdout, os.Stderr = oldOut, oldErr
+			outF.Close()
+			errF.Close()
+		}()
+		os.Stdout, os.Stderr = outF, errF
+		res.code = cmd.Execute()
+	}()
+	o, err := os.ReadFile(outF.Name())
+	if err != nil {
+		return res, err
+	}
+	e, _ := os.ReadFile(errF.Name())
+	res.out, res.errs = string(o), string(e)
+	return res, nil
+}
+
 type jsonLine struct {
 	Code     string `json:"code"`
 	Severity string `json:"severity"`
@@ -540,6 +676,11 @@ func evaluate(c *Case, dir string) (msg string, infra string) {
 		}
 		segs = append(segs, b)
 	}
+	for i, b := range segs {
+		if err := os.WriteFile(filepath.Join(dir, fmt.Sprintf("seg%d.bin", i)), b, 0o644); err != nil {
+			return "", err.Error()
+		}
+	}
 	want := modelMerge(c.modelRuns())
 	var shown []merged
 	for _, m := range want {
@@ -586,25 +727,39 @@ func evaluate(c *Case, dir string) (msg string, infra string) {
 		return fmt.Sprintf("`staticcheck -merge -f json` differs from the merge semantics\n%sruns:\n%soutput:\n%s", d, c.render(), js.out), ""
 	}
 	if base.code != js.code {
-		return fmt.Sprintf("exit status differs between -f text (%d) and -f json (%d)\nruns:\n%s", base.code, js.code, c.render()), ""
+		ev.Count("exit_status_differs_between_text_and_json", 1) // not a matter of merging: counted, not asserted
 	}
 
-	// 3. the order of the runs does not matter
+	// 3. the in-process execution of the same command agrees with the binary
+	inproc, err := mergeInProcess(dir, id, "text", c.ShowIgnored)
+	if err != nil {
+		return "", err.Error()
+	}
+	if inproc.out != base.out || inproc.code != base.code {
+		return fmt.Sprintf("two executions of -merge on the same runs in the same order differ: the binary gives (exit %d)\n%sthe command executed in the test process gives (exit %d)\n%s%sruns:\n%s", base.code, base.out, inproc.code, inproc.out, inproc.errs, c.render()), ""
+	}
+
+	// 4. the order of the runs does not matter: real binary on the reversed order, in-process on all orders
+	if n > 1 {
+		rev := make([]int, n)
+		for i := range rev {
+			rev[i] = n - 1 - i
+		}
+		r, err := merge(dir, segs, rev, "text", "stdin", c.ShowIgnored)
+		if err != nil {
+			return "", err.Error()
+		}
+		ev.Count("orders_compared_binary", 1)
+		if r.out != base.out || r.code != base.code {
+			return fmt.Sprintf("the result of -merge depends on the order of the runs: order %v gives (exit %d)\n%sorder %v gives (exit %d)\n%sruns:\n%s", id, base.code, base.out, rev, r.code, r.out, c.render()), ""
+		}
+	}
 	orders := c.Perms
 	if n <= 4 {
 		orders = permutations(n)
 	}
 	for _, o := range orders {
-		same := true
-		for i := range o {
-			if o[i] != i {
-				same = false
-			}
-		}
-		if same && c.Input == "stdin" {
-			continue
-		}
-		r, err := merge(dir, segs, o, "text", "stdin", c.ShowIgnored)
+		r, err := mergeInProcess(dir, o, "text", c.ShowIgnored)
 		if err != nil {
 			return "", err.Error()
 		}
@@ -614,7 +769,7 @@ func evaluate(c *Case, dir string) (msg string, infra string) {
 		}
 	}
 
-	// 4. repeating a run changes nothing
+	// 5. repeating a run changes nothing
 	for i := 0; i <= n; i++ {
 		var o []int
 		if i == n {
@@ -625,7 +780,9 @@ func evaluate(c *Case, dir string) (msg string, infra string) {
 				o = append(append([]int(nil), id...), i) // or at the end
 			}
 		}
-		r, err := merge(dir, segs, o, "text", "stdin", c.ShowIgnored)
+		var r result
+		var err error
+		r, err = mergeInProcess(dir, o, "text", c.ShowIgnored)
 		if err != nil {
 			return "", err.Error()
 		}
